@@ -23,14 +23,12 @@ import (
 	"crypto/tls"
 	"fmt"
 	"net"
-	"os"
 	"runtime"
 	"sort"
 	"strconv"
 	"strings"
 	"sync"
 	"sync/atomic"
-	"syscall"
 	"testing"
 	"time"
 
@@ -732,20 +730,8 @@ func (sr *sentRun) waitQuiet(steps int) bool {
 	return rr.Reason == "done"
 }
 
-func realNow() float64 {
-	var tv syscall.Timeval
-	syscall.Gettimeofday(&tv)
-	return float64(tv.Sec) + float64(tv.Usec)/1e6
-}
-
 func execSentinel(t *testing.T, plan any, out *Outcome) {
 	p := plan.(*Plan)
-	t0 := realNow()
-	lap := func(what string) {
-		if os.Getenv("VERIF_DEBUG_LAP") != "" {
-			fmt.Fprintf(os.Stderr, "LAP %-12s %.3f step=%d\n", what, realNow()-t0, curSim.Load().Step)
-		}
-	}
 	e := newEnv(out.Seed, p, out)
 	s := e.sim
 	muxRegReset(16)
@@ -825,7 +811,6 @@ func execSentinel(t *testing.T, plan any, out *Outcome) {
 		return
 	}
 
-	lap("setup")
 	// workload and environment
 	sr.base = s.Step
 	for ti, calls := range p.Tasks {
@@ -894,7 +879,6 @@ func execSentinel(t *testing.T, plan any, out *Outcome) {
 	out.Reason = rr.Reason
 	sr.envOn = false
 
-	lap("main")
 	// closing phase: faults stop, the world becomes consistent, the switch to the final master is announced
 	s.Heal()
 	final := xInt(p, "final", 0)
@@ -959,7 +943,6 @@ func execSentinel(t *testing.T, plan any, out *Outcome) {
 		s.Run(s.AllTasksDone)
 		settled = sr.waitQuiet(2000)
 	}
-	lap("closing")
 	for _, tk := range s.Tasks {
 		if rec := tk.Running(); rec != nil {
 			rec.Hung = true
@@ -982,27 +965,12 @@ func execSentinel(t *testing.T, plan any, out *Outcome) {
 	s.Cfg.DrainBound = 2 * time.Second
 	s.Cfg.MaxSteps = s.Step + 600
 	s.Run(func() bool { return false })
-	lap("closed")
-	if os.Getenv("VERIF_DEBUG_STACKS") == "2" {
-		buf := make([]byte, 1<<20)
-		buf = buf[:runtime.Stack(buf, true)]
-		os.Stderr.WriteString("=== goroutines before finish ===\n")
-		os.Stderr.Write(buf)
-	}
 	e.finish()
-	if os.Getenv("VERIF_DEBUG_STACKS") == "1" {
-		buf := make([]byte, 1<<20)
-		buf = buf[:runtime.Stack(buf, true)]
-		os.Stderr.WriteString("=== goroutines after finish ===\n")
-		os.Stderr.Write(buf)
-	}
 	if out.HarnessErr != "" {
 		return
 	}
-	lap("finish")
 	checkCommon(e)
 	sr.judge()
-	lap("judge")
 }
 
 // ---- oracle ----
@@ -1115,7 +1083,7 @@ func (sr *sentRun) judge() {
 	// what sentinels told this client, and what the nodes answered to ROLE, per logical connection
 	var reports []sentReport
 	checks := map[string][]roleCheck{}
-	staleAnswers, refused := 0, 0
+	refused := 0
 	for _, ex := range s.W.Log {
 		if ex.Conn < 0 {
 			continue
@@ -1157,11 +1125,6 @@ func (sr *sentRun) judge() {
 			switches++
 		case ch == "+reboot" && len(msg) >= 4 && msg[0] == "master" && msg[1] == sentSet:
 			reports = append(reports, sentReport{pu.Seq, net.JoinHostPort(msg[2], msg[3]), "+reboot master"})
-		}
-	}
-	for _, rp := range reports {
-		if n := s.W.Nodes[rp.addr]; n != nil && rp.how == "get-master-addr-by-name" {
-			_ = n
 		}
 	}
 	reported := func(addr string, before int) bool {
@@ -1329,11 +1292,6 @@ func (sr *sentRun) judge() {
 	}
 	if refused > 0 {
 		out.probe("role-check-refused-node")
-	}
-	for _, rp := range reports {
-		if rp.how == "get-master-addr-by-name" {
-			staleAnswers++
-		}
 	}
 	if len(reports) > 0 {
 		addrs := map[string]bool{}
